@@ -57,8 +57,16 @@ model     "which probe is topmost when this key is processed": `base` until an o
           "may be modified" and process_input as passing input "to widget"; the reading asserted is per key: a
           key is given to what loop.widget / the open pop-up is when that key's turn comes, also inside a batch.
 
+history   With "history" the child calls run() once per session on the same MainLoop and reports every run;
+          check_report() walks the runs in order with one reference terminal, carrying the terminal size, the
+          widgets' state and the model of the topmost widget from run to run (a callback that raised the injected
+          exception at its entry did not change them), and applies every clause below to every run - the
+          restoration clauses after each run, the start modes at the first draw of each run (and of each restart).
+
 oracle    check_report() -> every failing clause:
             input-order / call-order / call-missing / call-unexpected   filter -> widget -> unhandled handler
+                                                                        (call-missing also: the loop waits while a
+                                                                        widget / handler call is still owed)
             wrong-widget                                                the key went to a probe that is not topmost
             widget-size                                                 keypress / mouse_event was not given a (cols, rows)
                                                                         the terminal has had in this session
